@@ -42,8 +42,18 @@ def check_solve(prog: Program, res: Result, prop: str) -> None:
         res.ob(ok, f"{fi.module.relpath}:{c.lineno} {norm(c)} <- {norm(origin(fi.node, c.args[0])) if c.args else '?'}",
                construct_key(prog, c, fi.module))
         if not ok:
-            _f(prog, res, prop, f"{prop}.chain.solve-corrects-first", c, fi,
-               "the argument of objective_function is not provably self.correct_solution(<the position passed to solve>)")
+            src_ = origin(fi.node, c.args[0]) if c.args else None
+            mentions = src_ is not None and any(isinstance(n_, ast.Call) and is_call_to(n_, "self", "correct_solution") for n_ in ast.walk(src_))
+            calls_other = src_ is not None and any(isinstance(n_, ast.Call) and not is_call_to(n_, "self", "correct_solution") for n_ in ast.walk(src_))
+            if src_ is not None and (not mentions or isinstance(src_, ast.IfExp)) and not (calls_other and not mentions and not isinstance(src_, ast.Name)):
+                _f(prog, res, prop, f"{prop}.chain.solve-corrects-first", c, fi,
+                   f"the argument of objective_function is `{norm(src_, 70)}`: not self.correct_solution(<the position passed to solve>) "
+                   f"on every path")
+            elif src_ is not None and not mentions:
+                res.errors.append(f"Task.solve: cannot follow `{norm(src_, 60)}` to a call of correct_solution (undecided)")
+            else:
+                _f(prog, res, prop, f"{prop}.chain.solve-corrects-first", c, fi,
+                   "the argument of objective_function is not self.correct_solution applied to the position passed to solve")
 
 
 def check_correct_solution(prog: Program, res: Result, prop: str) -> None:
@@ -87,7 +97,32 @@ def check_correct_solution(prog: Program, res: Result, prop: str) -> None:
                     why = "the element is not <variable>.correct(<its own coordinate>) over the uncut solution and self.get_variables()"
         res.ob(ok, f"{fi.module.relpath}:{r.lineno} {norm(r)}", construct_key(prog, r, fi.module))
         if not ok:
-            _f(prog, res, prop, f"{prop}.chain.correct-solution-shape", r, fi, why)
+            positive = False
+            if isinstance(v, ast.ListComp):
+                positive = True       # a comprehension we can read: filter, cut operand, wrong pairing, other element
+            elif isinstance(v, ast.BinOp) and isinstance(v.op, ast.Add):
+                parts = []
+                stack = [v]
+                while stack:
+                    x = stack.pop()
+                    if isinstance(x, ast.BinOp) and isinstance(x.op, ast.Add):
+                        stack += [x.left, x.right]
+                    else:
+                        parts.append(x)
+                raw = [x for x in parts if not any(isinstance(n_, ast.Call) and isinstance(n_.func, ast.Attribute) and n_.func.attr == "correct"
+                                                   for n_ in ast.walk(x))]
+                if raw:
+                    positive = True
+                    why = f"part of the returned solution, `{norm(raw[0], 50)}`, is not passed through any variable's correct()"
+            elif v is not None and not any(isinstance(n_, ast.Call) and isinstance(n_.func, ast.Attribute) and n_.func.attr == "correct"
+                                           for n_ in ast.walk(v)):
+                positive = isinstance(v, (ast.Name, ast.Attribute, ast.Subscript, ast.List, ast.Tuple))
+                why = f"correct_solution returns `{norm(v, 60)}` without applying any variable's correct()"
+            if positive:
+                _f(prog, res, prop, f"{prop}.chain.correct-solution-shape", r, fi, why)
+            else:
+                res.errors.append(f"Task.correct_solution: return value `{norm(v, 70) if v is not None else None}` has a shape that is not "
+                                  f"understood (undecided)")
 
 
 def check_initial_solution(prog: Program, res: Result, prop: str) -> None:
@@ -102,8 +137,14 @@ def check_initial_solution(prog: Program, res: Result, prop: str) -> None:
         res.ob(ok, f"{fi.module.relpath}:{r.lineno} {norm(r)}", construct_key(prog, r, fi.module))
         if not ok:
             ok_all = False
-            _f(prog, res, prop, f"{prop}.chain.initial-solution-corrects", r, fi,
-               "initial_solution has a return path that does not go through self.correct_solution")
+            unknown_call = isinstance(v, ast.Call) and not is_call_to(v, "self", "correct_solution") and not (
+                isinstance(v.func, ast.Name) and v.func.id in ("list", "tuple"))
+            if unknown_call and isinstance(v.func, ast.Attribute) and dotted(v.func.value) == "self" and v.func.attr not in (
+                    "empty_solution", "random_solution"):
+                res.errors.append(f"Task.initial_solution: return `{norm(v, 60)}` goes through a helper that is not followed (undecided)")
+            else:
+                _f(prog, res, prop, f"{prop}.chain.initial-solution-corrects", r, fi,
+                   f"initial_solution returns `{norm(v, 60) if v is not None else None}` on some path without going through self.correct_solution")
     # falls off the end?
     last = fi.node.body[-1]
     if not isinstance(last, (ast.Return, ast.Raise)):
